@@ -69,6 +69,10 @@ type Case struct {
 	// RemoteBeta: the beta endpoint is reached through the agent protocol
 	// (client and server in this process, kernel socket pair).
 	RemoteBeta bool `json:"remote_beta,omitempty"`
+	// RootsOnShm: both roots live on /dev/shm (tmpfs), i.e. on another device
+	// than the staging area in the data directory, so that staged files reach
+	// the roots through the cross-device copy fallback.
+	RootsOnShm bool `json:"roots_on_shm,omitempty"`
 }
 
 // judgedAs maps the property a run is reported under to the rules applied:
@@ -117,6 +121,12 @@ func apply(root string, e *Edit, clock *int64) {
 	case "chmodx":
 		if exists && fi.Mode().IsRegular() {
 			os.Chmod(full, fi.Mode().Perm()^0o100)
+		}
+	case "rewrite-chmodx": // new content and a flipped executable bit in one go
+		if exists && fi.Mode().IsRegular() {
+			os.WriteFile(full, []byte("content-"+e.Arg+strings.Repeat("y", len(e.Arg))), 0o644)
+			os.Chmod(full, fi.Mode().Perm()^0o100)
+			os.Chtimes(full, stamp, stamp)
 		}
 	case "fifo":
 		if !exists {
@@ -232,6 +242,20 @@ func updateSynced(leftA, leftB, a, b *core.Entry, path string) {
 	}
 }
 
+// scanAgreement records what both roots held in common when the cycle scanned
+// them (before any edit made in the middle of the cycle): that is what the
+// cycle records as synchronized even if one side is edited right afterwards.
+func scanAgreement(a, b *core.Entry, path string) {
+	x, y := tree.At(a, path), tree.At(b, path)
+	if x == nil || y == nil || !tree.ShallowEqual(slim(x), slim(y)) || slim(x) == nil {
+		return
+	}
+	synced["alpha"][path], synced["beta"][path] = slim(x), slim(y)
+	for _, n := range tree.Names(x) {
+		scanAgreement(a, b, tree.Join(path, n))
+	}
+}
+
 func destroyedOutsideAncestor(side string, pre, post, anc *core.Entry) string {
 	for _, d := range tree.Destroyed("", tree.Sync(pre), tree.Sync(post)) {
 		if !tree.ShallowEqual(tree.At(anc, d.Path), d.Entry) {
@@ -246,8 +270,25 @@ func destroyedOutsideAncestor(side string, pre, post, anc *core.Entry) string {
 	return ""
 }
 
+// rootless renders a root with full identity for everything below it but
+// without the root directory's own modification time: on filesystems whose
+// behaviour is not known by type (tmpfs) every scan probes executability and
+// Unicode handling with short-lived files in the root, which bumps that time.
+func rootless(n *disk.Node) string {
+	if n == nil || n.Kind != disk.Dir {
+		return n.Render(true)
+	}
+	var b strings.Builder
+	fmt.Fprintf(&b, "dir(%o){", n.Perm)
+	for _, name := range n.Names() {
+		fmt.Fprintf(&b, "%q:%s ", name, n.Children[name].Render(true))
+	}
+	b.WriteString("}")
+	return b.String()
+}
+
 func sameRoot(what string, pre, post *disk.Node) string {
-	if pre.Render(true) != post.Render(true) {
+	if rootless(pre) != rootless(post) {
 		return fmt.Sprintf("%s was modified by the cycle:\n before %s\n after  %s", what, pre.Render(true), post.Render(true))
 	}
 	return ""
@@ -339,6 +380,20 @@ var names = []string{"a", "b", "c", "d"}
 
 func drawEdits(rt *rapid.T, p string) []*Edit {
 	var out []*Edit
+	if (p == "C01" || p == "C02") && rapid.IntRange(0, 3).Draw(rt, "creation-race") == 0 {
+		// One root creates a file before the cycle; the other root creates a
+		// file at the same path in the middle of the cycle (after its scan,
+		// right before it is asked to apply the first root's creation).
+		path := rapid.SampledFrom(names).Draw(rt, "race.name")
+		if rapid.Bool().Draw(rt, "race.deep") {
+			path = rapid.SampledFrom(names).Draw(rt, "race.dir") + "/" + path
+		}
+		first, second := "alpha", "beta"
+		if rapid.Bool().Draw(rt, "race.first") {
+			first, second = second, first
+		}
+		out = append(out, &Edit{Side: first, Op: "write", Path: path, Arg: "1"}, &Edit{Side: second, Op: "write", Path: path, Arg: "2", Mid: true})
+	}
 	n := rapid.IntRange(0, 4).Draw(rt, "edits")
 	for i := 0; i < n; i++ {
 		sides := []string{"alpha", "beta"}
@@ -353,13 +408,13 @@ func drawEdits(rt *rapid.T, p string) []*Edit {
 			comps = append(comps, rapid.SampledFrom(names).Draw(rt, "name"))
 		}
 		e.Path = strings.Join(comps, "/")
-		ops := []string{"write", "write", "write", "delete", "mkdir", "link", "chmodx"}
+		ops := []string{"write", "write", "write", "delete", "mkdir", "link", "chmodx", "chmodx", "rewrite-chmodx"}
 		if p == "C03" {
 			ops = append(ops, "ignored", "ignored", "fifo", "badname")
 		}
 		e.Op = rapid.SampledFrom(ops).Draw(rt, "op")
 		switch e.Op {
-		case "write":
+		case "write", "rewrite-chmodx":
 			e.Arg = rapid.SampledFrom([]string{"1", "2", "3"}).Draw(rt, "content")
 		case "ignored":
 			e.Path += ignoredSuffix
@@ -411,6 +466,11 @@ func (r *runner) hook(session string, alpha bool, transitions []*core.Change) (b
 func (r *runner) runCase(p string, c *Case) (violation string, nontrivial bool, cycles int) {
 	r.n++
 	dir := filepath.Join(r.base, fmt.Sprintf("case%d", r.n))
+	if c.RootsOnShm {
+		if d, err := os.MkdirTemp("/dev/shm", "verif-c01-roots-"); err == nil {
+			dir = d
+		}
+	}
 	aRoot, bRoot := filepath.Join(dir, "alpha"), filepath.Join(dir, "beta")
 	os.MkdirAll(aRoot, 0o755)
 	os.MkdirAll(bRoot, 0o755)
@@ -525,6 +585,9 @@ func (r *runner) runCase(p string, c *Case) (violation string, nontrivial bool, 
 			nontrivial = nontrivial || nt
 		}
 		if synced != nil {
+			if flushErr == nil {
+				scanAgreement(pre.a, pre.b, "")
+			}
 			updateSynced(pre.da, pre.db, post.a, post.b, "")
 		}
 		cycles++
@@ -611,7 +674,7 @@ func TestSessionHistories(t *testing.T) {
 		t.Skip()
 	}
 	p := prop()
-	rec := ev.New(t, p, "session-histories", "rapid: 3-8 cycles of 0-4 edits per cycle (write/delete/mkdir/link/chmod"+map[bool]string{true: "/ignored file/FIFO/non-UTF-8 name", false: ""}[p == "C03"]+") on two real roots (names {a,b,c,d}, depth<=2) of a real Manager session (no-watch, waiting flush per cycle; in a third of the cases beta is reached through the agent protocol: remote client and server over a socket pair); both roots and the saved archive are observed independently before and after each flush; "+rulesByProp[p])
+	rec := ev.New(t, p, "session-histories", "rapid: 3-8 cycles of 0-4 edits per cycle (write/delete/mkdir/link/chmod/rewrite+chmod"+map[bool]string{true: "/ignored file/FIFO/non-UTF-8 name", false: ""}[p == "C03"]+") on two real roots (names {a,b,c,d}, depth<=2) of a real Manager session (no-watch, waiting flush per cycle; in a third of the cases beta is reached through the agent protocol: remote client and server over a socket pair); both roots and the saved archive are observed independently before and after each flush; "+rulesByProp[p])
 	base := t.TempDir()
 	env, err := sess.NewEnv(filepath.Join(base, "data"))
 	if err != nil {
@@ -625,6 +688,7 @@ func TestSessionHistories(t *testing.T) {
 	ev.Check(t, rec, 150, 6000, func(rt *rapid.T) {
 		c := &Case{Mode: rapid.SampledFrom(modesFor(jp)).Draw(rt, "mode")}
 		c.RemoteBeta = p == "C05" || rapid.IntRange(0, 2).Draw(rt, "remote-beta") == 0
+		c.RootsOnShm = rapid.IntRange(0, 2).Draw(rt, "roots-on-shm") == 0
 		for n := rapid.IntRange(3, 8).Draw(rt, "cycles"); n > 0; n-- {
 			c.Cycles = append(c.Cycles, drawEdits(rt, jp))
 		}
@@ -636,6 +700,9 @@ func TestSessionHistories(t *testing.T) {
 		rec.Class("mode/" + c.Mode)
 		if c.RemoteBeta {
 			rec.Class("beta-through-the-agent-protocol")
+		}
+		if c.RootsOnShm {
+			rec.Class("roots-on-another-device-than-staging")
 		}
 		if nt {
 			rec.Class("nontrivial")
